@@ -30,6 +30,9 @@ func runC18(c *Ctx) {
 	c12Cbuf(c)
 	// a reset scrubs the object, not what the caller attached to it
 	callerSliceRules(c, "C18")
+	// the per-message state of the compression extension is reused from message to message: a
+	// first data frame without RSV1 must clear what the previous message left
+	c13Bits(c)
 }
 
 func fieldNames(st *types.Struct) []string {
